@@ -76,7 +76,7 @@ def main():
        {"name":"modsim","path":"/verif/sim (props/c08,c15,c16)","serves_properties":["C08","C15","C16"],"kind_free_text":"edit-session simulator: operation histories with persistence points against a set/map reference model"},
      ],
      "checks": [],
-     "notes": "All checks: `./check <ID> quick|thorough`, replay with `./check <ID> --replay <file>`. Exit 0 held / 1 violation / 2 build or harness trouble. Genuine defects: 19 repaired by fix: commits in /repo (D1-D19), 4 recorded as open known findings (F1 and F4: C13; F2: C12; F3: C15 and C08); see known_findings.json, findings/, seeded/ and DESIGN.md sections 8, 11, 12.",
+     "notes": "All checks: `./check <ID> quick|thorough`, replay with `./check <ID> --replay <file>`. Exit 0 held / 1 violation / 2 build or harness trouble. Genuine defects: 21 repaired by fix: commits in /repo (D1-D21), 4 recorded as open known findings (F1 and F4: C13; F2: C12; F3: C15 and C08); see known_findings.json, findings/, seeded/ and DESIGN.md sections 8, 11, 12.",
      "not_applicable": [{"property_id":k,"reason":v} for k,v in sorted(NA.items())],
     }
     for pid,(eng,tech,text,note,ref) in sorted(CHECKS.items()):
